@@ -736,6 +736,48 @@ def followers(prog, sl, fns):
     return F
 
 
+# ---- roles: the delete routine by what it does (effects), not by where its `remove_file` is spelled ------------------
+def _names_toml(sl, v):
+    """does path value v (helpers inlined) name a `<..>.toml` file"""
+    for w in (v, sl.inline_deep(v)):
+        for x in walk(w):
+            if x[0] == 'fmt' and any(isinstance(y, str) and y.endswith('.toml') for y in x[1]):
+                return True
+            if x[0] == 'const' and isinstance(x[1], str) and x[1].endswith('.toml'):
+                return True
+    return False
+
+
+def delete_roles(prog, sl, roles):
+    """(delete routine, remover) paths.  layer_roles finds the delete routine by a `remove_file(<fmt ..".toml">)` call
+    spelled in the routine's own body; with the removal inside a combinator closure, or the path built by a private
+    accessor, that picks another function (the shared reader also drops a stale TOML).  Stated on effects instead: the
+    libcnb function returning Result<(), _>, reachable from both layer handlers, whose (interprocedural, closures
+    included) effects remove a `<name>.toml` file; the callee-most one when several nest.  Falls back to layer_roles."""
+    dflt = (roles.get('DELETE'), roles.get('REMOVER'))
+    sh, th = prog.fns.get(roles.get('STRUCT_HL') or ''), prog.fns.get(roles.get('TRAIT_HL') or '')
+    if sh is None or th is None:
+        return dflt
+    rs, rt = prog.reach([sh]), prog.reach([th])
+    E = Effects(prog, sl)
+    cands = []
+    for p in sorted(set(rs) & set(rt)):
+        f = prog.fns[p]
+        if f.crate != 'libcnb' or f.kind == 'Closure' or not f.ret.startswith('std::result::Result<(), '):
+            continue
+        if any(e.kind == 'REMOVE_FILE' and e.path is not None and _names_toml(sl, e.path) for e in E.expand(f, 'may')):
+            cands.append(p)
+    if len(cands) > 1:
+        inner = [p for p in cands if not any(q != p and q in prog.reach([prog.fns[p]]) for q in cands)]
+        cands = inner or cands
+    if len(cands) != 1:
+        return dflt
+    dl = prog.fns[cands[0]]
+    rem = [f.path for f in prog.reach([dl]).values()
+           if f.crate == 'libcnb' and f.kind != 'Closure' and any((vocab_lookup(c) or ('',))[0] == 'CHMOD' for c in f.calls)]
+    return dl.path, (rem[0] if len(rem) == 1 else dflt[1])
+
+
 # ====================================================================================================================
 # Deepening round: permission fixing (R4), SBOM path shape (R2/sbom-path), recreate decisions (R5)
 # ====================================================================================================================
